@@ -33,7 +33,14 @@ func (fr *Frame) findLoopSpec(s ast.Stmt) *LoopSpec {
 	fr.loopOrd[key]++
 	ord := fr.loopOrd[key]
 	for _, ls := range fr.contract.Loops {
-		if normKey(ls.Key) == key && (ls.Ord == 0 || ls.Ord == ord) {
+		if normKey(ls.Key) == key && ls.Ord == ord {
+			fr.x.loopHits[ls] = true
+			return ls
+		}
+	}
+	for _, ls := range fr.contract.Loops {
+		if normKey(ls.Key) == key && ls.Ord == 0 {
+			fr.x.loopHits[ls] = true
 			return ls
 		}
 	}
@@ -45,6 +52,37 @@ type modSet struct {
 	vars     map[*types.Var]bool
 	heapAll  bool
 	heapKeys map[string]bool
+	seenLits map[*ast.FuncLit]bool
+}
+
+// findLocalLit finds the function literal a local identifier of the unit is bound to.
+func (fr *Frame) findLocalLit(id *ast.Ident) *ast.FuncLit {
+	obj := fr.info.ObjectOf(id)
+	root := fr.rootBody()
+	if obj == nil || root == nil {
+		return nil
+	}
+	var found *ast.FuncLit
+	ast.Inspect(root, func(n ast.Node) bool {
+		if as, ok := n.(*ast.AssignStmt); ok {
+			for i, l := range as.Lhs {
+				if lid, ok := l.(*ast.Ident); ok && fr.info.ObjectOf(lid) == obj && i < len(as.Rhs) {
+					if fl, ok := as.Rhs[i].(*ast.FuncLit); ok {
+						found = fl
+					}
+				}
+			}
+		}
+		return true
+	})
+	return found
+}
+
+func (fr *Frame) rootBody() *ast.BlockStmt {
+	if fr.unitBody != nil {
+		return fr.unitBody
+	}
+	return fr.body
 }
 
 func (fr *Frame) collectMods(nodes []ast.Node, declaredInside map[*types.Var]bool) *modSet {
@@ -194,6 +232,32 @@ func (fr *Frame) callMods(c *ast.CallExpr, ms *modSet, markLhs func(ast.Expr)) {
 	}
 	fn := fr.calleeFunc(c)
 	if fn == nil {
+		if id, ok := ast.Unparen(c.Fun).(*ast.Ident); ok {
+			if fr.contract != nil && fr.contract.FnSpecs[id.Name] != "" {
+				return // function-typed parameter with an assumed contract: no modelled effect
+			}
+			// a local bound to a function literal of this function: its body's effects
+			if lit := fr.findLocalLit(id); lit != nil && !ms.seenLits[lit] {
+				if ms.seenLits == nil {
+					ms.seenLits = map[*ast.FuncLit]bool{}
+				}
+				ms.seenLits[lit] = true
+				sm := fr.collectMods([]ast.Node{lit.Body}, nil)
+				if sm.heapAll {
+					ms.heapAll = true
+				}
+				for k := range sm.heapKeys {
+					ms.heapKeys[k] = true
+				}
+				for v := range sm.vars {
+					ms.vars[v] = true
+				}
+				return
+			}
+		}
+		if _, ok := ast.Unparen(c.Fun).(*ast.FuncLit); ok {
+			return // the literal's body is inspected by the enclosing walk
+		}
 		ms.heapAll = true
 		return
 	}
@@ -392,6 +456,9 @@ func (fr *Frame) forStmt(st *State, n *ast.ForStmt, label string) flow {
 	}
 	ls := fr.findLoopSpec(n)
 	key := normKey(fr.loopKey(n))
+	if ls != nil && ls.Ord > 0 {
+		key = fmt.Sprintf("%s#%d", key, ls.Ord)
+	}
 	// ghost iteration counter
 	iv := x.u.fresh("$i", "Int")
 	x.u.fact("(= " + iv + " 0)")
@@ -474,6 +541,9 @@ func (fr *Frame) rangeStmt(st *State, n *ast.RangeStmt, label string) flow {
 	out := flow{}
 	ls := fr.findLoopSpec(n)
 	key := normKey(fr.loopKey(n))
+	if ls != nil && ls.Ord > 0 {
+		key = fmt.Sprintf("%s#%d", key, ls.Ord)
+	}
 	coll := fr.expr(st, n.X)
 	ct := fr.typeOf(n.X)
 	var isMapR bool
